@@ -6,6 +6,7 @@ import (
 	"go/types"
 	"sort"
 	"strings"
+	"sync"
 
 	"golang.org/x/tools/go/ssa"
 )
@@ -98,6 +99,9 @@ type Effects struct {
 	st          map[*ssa.Function]*fnState
 	trCache     map[string]*trEntry
 	mtCache     map[string]*trEntry
+	boxedOnce   sync.Once
+	boxedSet    strset
+	boxedOpen   bool
 	vtypes      map[string]types.Type
 	globalTypes map[string]types.Type
 }
@@ -243,8 +247,7 @@ func (s *fnState) rootsIn(rc cell, ct string, e *Effects) strset {
 				ok = true
 				break
 			}
-			set, open := e.memTypes(s.vtypes[vt])
-			if open || set[ct] {
+			if e.mayHold(s.vtypes[vt], ct) {
 				ok = true
 				break
 			}
@@ -318,8 +321,12 @@ func (s *fnState) load(dst ssa.Value, addr ssa.Value) {
 	}
 	for r := range s.roots[addr] {
 		ri := parseRoot(r)
-		if isVal && !ri.deep && !ri.value && ri.field == "" && (strings.HasPrefix(ri.base, "P") || strings.HasPrefix(ri.base, "FV")) {
+		if isVal && !ri.deep && !ri.value && ri.field == "" && paramLike(ri.base) {
 			s.addRoot(dst, ri.base+"@")
+		} else if !isVal && !ri.deep && !ri.value && ri.field == "" && strings.HasPrefix(ri.base, "FV") {
+			// the value of a captured variable: exactly one step from its cell, named W<k> so that a
+			// write through it is not smeared over everything reachable from the variable
+			s.addRoot(dst, "W"+ri.base[2:])
 		} else {
 			s.addRoot(dst, deepen(r))
 		}
@@ -432,7 +439,27 @@ func (s *fnState) subst(ri rootInfo, actual ssa.Value) (strset, cellset) {
 
 // substF is subst restricted to regions that can hold an object of type ct.
 func (s *fnState) substF(ri rootInfo, actual ssa.Value, ct string, e *Effects) (strset, cellset) {
-	A, C := s.roots[actual], s.cells[actual]
+	return s.substFS(ri, s.roots[actual], s.cells[actual], ct, e)
+}
+
+// cellValue: what a load from the (captured variable) cell designated by binding yields.
+func (s *fnState) cellValue(binding ssa.Value) (strset, cellset) {
+	A := deepenSet(s.roots[binding])
+	r, c := s.contentOf(s.cells[binding])
+	A.addAll(r)
+	for root := range s.roots[binding] {
+		t := binding.Type()
+		if pt, ok := t.Underlying().(*types.Pointer); ok {
+			t = pt.Elem()
+		}
+		k := rootBase(root) + "|deref(" + typeStr(t) + ")"
+		A.addAll(s.pc[k])
+		c.addAll(s.pcCells[k])
+	}
+	return A, c
+}
+
+func (s *fnState) substFS(ri rootInfo, A strset, C cellset, ct string, e *Effects) (strset, cellset) {
 	outR, outC := strset{}, cellset{}
 	if ri.value || (!ri.deep && ri.field == "") {
 		outR.addAll(A)
@@ -457,7 +484,7 @@ func (s *fnState) substF(ri rootInfo, actual ssa.Value, ct string, e *Effects) (
 			outR.add(rootInfo{base: pa.base, field: ri.field, deep: true}.String())
 		case pa.field != "":
 			outR.add(rootInfo{base: pa.base, field: pa.field, deep: true}.String())
-		case ri.field != "" && (strings.HasPrefix(pa.base, "P") || strings.HasPrefix(pa.base, "FV")):
+		case ri.field != "" && paramLike(pa.base):
 			outR.add(rootInfo{base: pa.base, field: ri.field, deep: true}.String())
 		default:
 			outR.add(rootInfo{base: pa.base, deep: true}.String())
@@ -710,17 +737,73 @@ func (e *Effects) memTypes(t types.Type) (strset, bool) {
 			}
 		case *types.Array:
 			val(u.Elem(), d+1)
-		case *types.Interface, *types.Signature:
+		case *types.Signature:
 			r.open = true
+		case *types.Interface:
+			r.iface = true
 		}
 	}
 	val(t, 0)
-	return r.set, r.open
+	return r.set, r.open || r.iface
 }
 
 type trEntry struct {
-	set  strset
-	open bool
+	set   strset
+	open  bool // holds a closure: anything may be behind it
+	iface bool // holds an interface: whatever the program boxes may be behind it
+}
+
+// mayHold: memory reachable from a value of type vt may contain an object of type ct.
+// Behind an interface there can only be what some MakeInterface of the analysed program boxed
+// (and what those values reach): the dependencies cannot name a type of this module (they do not
+// import it), so an object of a library-defined type is behind an interface only when library or
+// CLI code put it there.  For other types ct, an interface stays open.
+func (e *Effects) mayHold(vt types.Type, ct string) bool {
+	set, open := e.memTypes(vt)
+	if set[ct] {
+		return true
+	}
+	if !open {
+		return false
+	}
+	r := e.mtCache[typeStr(vt)]
+	if r == nil || r.open || !e.libDefined(ct) {
+		return true
+	}
+	// only interfaces make it open
+	e.boxedOnce.Do(func() {
+		e.boxedSet = strset{}
+		fns := append(append(append([]*ssa.Function{}, e.p.LibFns...), e.p.CLIFns...), e.p.Wrappers...)
+		for _, fn := range fns {
+			for _, b := range fn.Blocks {
+				for _, ins := range b.Instrs {
+					if mi, ok := ins.(*ssa.MakeInterface); ok {
+						bs, _ := e.memTypes(mi.X.Type())
+						e.boxedSet.addAll(bs)
+						if br := e.mtCache[typeStr(mi.X.Type())]; br != nil && br.open {
+							e.boxedOpen = true
+						}
+					}
+				}
+			}
+		}
+	})
+	return e.boxedOpen || e.boxedSet[ct]
+}
+
+// libDefined: ct names a struct type declared in the library or the CLI package.
+func (e *Effects) libDefined(ct string) bool {
+	for _, pkg := range []*types.Package{e.p.Lib.Types, e.p.CLI.Types} {
+		if pkg == nil {
+			continue
+		}
+		if obj := pkg.Scope().Lookup(ct); obj != nil {
+			if _, ok := obj.(*types.TypeName); ok {
+				return true
+			}
+		}
+	}
+	return false
 }
 
 // rootType gives the declared type of a root in the context of fn (nil when unknown).
@@ -732,6 +815,12 @@ func (e *Effects) rootType(fn *ssa.Function, root string) types.Type {
 	case strings.HasPrefix(root, "FV"):
 		if k := atoi(root[2:]); k >= 0 && k < len(fn.FreeVars) {
 			return fn.FreeVars[k].Type()
+		}
+	case strings.HasPrefix(root, "W"):
+		if k := atoi(root[1:]); k >= 0 && k < len(fn.FreeVars) {
+			if pt, ok := fn.FreeVars[k].Type().Underlying().(*types.Pointer); ok {
+				return pt.Elem()
+			}
 		}
 	case strings.HasPrefix(root, "P"):
 		if k := atoi(root[1:]); k >= 0 && k < len(fn.Params) {
